@@ -422,6 +422,59 @@ pub fn run(args: &Args) -> i32 {
         rep.violation_global("pad-map:simulation-differs-from-run-5000", json!({"what": "TpcPadPosition::try_new(u32::MAX, ..) must equal run 5000 element-wise and be a bijection"}));
     }
 
+    // ---- history independence: the same element asked for under changing run numbers --------
+    let hist_runs: Vec<u32> = vec![0, 2940, 2941, 4417, 4418, 5000, 10417, 10418, 20000, u32::MAX, 5000, 10418, 4417, 10418, 5000, 0, u32::MAX, 2940, 10417, 4418];
+    let mut distinct_runs = hist_runs.clone();
+    distinct_runs.sort();
+    distinct_runs.dedup();
+    // reference values computed run by run (run in the outer loop), each on a fresh thread
+    let fresh: Vec<(u32, Vec<Option<usize>>, Vec<Option<(usize, usize)>>)> = distinct_runs.iter().map(|&r| {
+        std::thread::spawn(move || (r, wire_lookup(r).unwrap_or_default(), pad_lookup(r).unwrap_or_default())).join().unwrap()
+    }).collect();
+    rep.run("lookup-history", (8 + 71) as u64, 120, true, "every Alpha16 board (32 channels) and every PadWing board (4 chips x 72 channels): the same element is looked up under a sequence of 20 run numbers that jumps back and forth across every map boundary (run number in the INNER loop); every answer must equal the one obtained run by run on a fresh thread", |idx, loc| {
+        let r = guard(|| {
+            let mut bad: Vec<String> = Vec::new();
+            if idx < 8 {
+                let (name, _) = A16_BOARDS[idx as usize];
+                let b = alpha16::BoardId::try_from(name).unwrap();
+                for ch in 0..32u8 {
+                    for &run in &hist_runs {
+                        let got = TpcWirePosition::try_new(run, b, Adc32ChannelId::try_from(ch).unwrap()).ok().map(usize::from);
+                        let want = fresh.iter().find(|f| f.0 == run).unwrap().1[idx as usize * 32 + ch as usize];
+                        if got != want {
+                            bad.push(format!("wire board {name} channel {ch} run {run}: {got:?} after other runs, {want:?} fresh"));
+                        }
+                    }
+                }
+            } else {
+                let bi = idx as usize - 8;
+                let (name, _, _) = PWB_BOARDS[bi];
+                let b = padwing::BoardId::try_from(name).unwrap();
+                for chip in 0..4u8 {
+                    for ch in 1..=72u16 {
+                        for &run in &hist_runs {
+                            let got = TpcPadPosition::try_new(run, b, AfterId::try_from(chip).unwrap(), PadChannelId::try_from(ch).unwrap()).ok().map(|p| (usize::from(p.column), usize::from(p.row)));
+                            let want = fresh.iter().find(|f| f.0 == run).unwrap().2[bi * 288 + chip as usize * 72 + ch as usize - 1];
+                            if got != want {
+                                bad.push(format!("pad board {name} chip {chip} channel {ch} run {run}: {got:?} after other runs, {want:?} fresh"));
+                            }
+                        }
+                    }
+                }
+            }
+            bad
+        });
+        loc.note(idx | 1 << 43, true, "compared");
+        match r {
+            Err(p) => loc.violation(format!("panic:map:{}", panic_site(&p)), json!({"board_index": idx, "panic": p})),
+            Ok(bad) => {
+                if !bad.is_empty() {
+                    loc.violation("map:answer-depends-on-earlier-lookups", json!({"board_index": idx, "differences": bad.len(), "first": bad[0]}));
+                }
+            }
+        }
+    });
+
     // ---- geometry --------------------------------------------------------------
     rep.run("wire-pad-column-geometry", 256, 60, true, "all 256 wires: wire_to_pad_column vs azimuth of the wire and of the pad column centre; membership in pad_column_to_wires", |idx, loc| {
         let w = idx as usize;
